@@ -17,6 +17,8 @@ import (
 	"github.com/named-data/ndnd/fw/core"
 	defn "github.com/named-data/ndnd/fw/defn"
 	"github.com/named-data/ndnd/fw/face/impl"
+	enc "github.com/named-data/ndnd/std/encoding"
+	spec "github.com/named-data/ndnd/std/ndn/spec_2022"
 )
 
 // UDPListener listens for incoming UDP unicast connections.
@@ -78,6 +80,16 @@ func (l *UDPListener) Run() {
 			return
 		}
 
+		// A datagram from an unknown endpoint only opens a face if it is an NDN packet:
+		// one that does not decode is dropped like on an existing face, where it
+		// changes nothing but counters. Otherwise anything that reaches the port
+		// (a port scan, a stray DNS reply) would add a face, its buffers and its
+		// goroutines to the forwarder for the lifetime of an idle UDP face.
+		if !isDecodableFrame(recvBuf[:readSize]) {
+			core.LogDebug(l, "Received datagram from ", remoteAddr, " that is not an NDN packet - DROP")
+			continue
+		}
+
 		// Construct remote URI
 		var remoteURI *defn.URI
 		host, port, err := net.SplitHostPort(remoteAddr.String())
@@ -107,6 +119,16 @@ func (l *UDPListener) Run() {
 		core.LogInfo(l, "Accepting new UDP face ", newTransport.RemoteURI())
 		MakeNDNLPLinkService(newTransport, MakeNDNLPLinkServiceOptions()).Run(recvBuf[:readSize])
 	}
+}
+
+// isDecodableFrame reports whether the link service would decode frame: exactly one
+// TLV element that parses as an LpPacket, an Interest or a Data.
+func isDecodableFrame(frame []byte) bool {
+	if !isSingleElement(frame) {
+		return false
+	}
+	_, _, err := spec.ReadPacket(enc.NewBufferReader(frame))
+	return err == nil
 }
 
 func (l *UDPListener) Close() {
